@@ -72,6 +72,13 @@ pub fn run_program(b: &Value, id: u64) -> RunOut {
     init_id_hashes(40);
     let clock = MockClock::new();
     let base = clock.now();
+    // scaled maintenance queues (flush point, read slots, write slots): the schedule comes from a
+    // model with small queues, and the code runs with the same sizes
+    let scaled = b.get("scaled").and_then(|x| x.as_array()).map(|a| {
+        let g = |i: usize| a[i].as_u64().unwrap() as usize;
+        (g(0), g(1), g(2))
+    });
+    mini_moka::verif::set_scaled_queues(scaled);
     let cache: SCache = match build_cache(&cfg) {
         AnyCache::S(c) => c,
         _ => panic!("harness: sched needs a sync cache"),
@@ -201,6 +208,7 @@ pub fn run_program(b: &Value, id: u64) -> RunOut {
     let measure = b.get("overshoot").and_then(|x| x.as_bool()).unwrap_or(false);
     let mut max_count = 0usize;
     let mut spin: Vec<u32> = vec![0; n];
+    let mut last_grant: Vec<usize> = vec![0; n];
     loop {
         let st = match wait_quiescent(Duration::from_secs(20)) {
             Some(s) => s,
@@ -299,8 +307,12 @@ pub fn run_program(b: &Value, id: u64) -> RunOut {
         } else if let Some(r) = rng.as_mut() {
             *r.pick(&en)
         } else {
-            en[0]
+            // fair continuation (the model assumes weak fairness per thread): the enabled thread
+            // that was granted longest ago; a writer retrying on a full queue cannot starve the
+            // thread whose maintenance run would make room
+            *en.iter().min_by_key(|t| last_grant[**t]).unwrap()
         };
+        last_grant[t] = steps + 1;
         if let St::Parked(tag) = &st[t] {
             if *tag == "sync.lock" {
                 in_maint = Some(t);
